@@ -2,7 +2,7 @@
    key-value store" is REFUTED by the faithful model; one witness per finding of known_findings/C15_text.json.
    Every witness is replayed on the real server by checks/C15_text.py (corpus/C15_text/findings.txt). *)
 From Coq Require Import List NArith ZArith Bool String.
-From Slock Require Import Base.Util Engine.Types Kv.KvModel Kv.KvSpec.
+From Slock Require Import Kv.KvFlags Base.Util Engine.Types Kv.KvModel Kv.KvSpec.
 Import ListNotations.
 Open Scope N_scope.
 
@@ -99,10 +99,11 @@ Lemma Kv_refuted_expire_missing_l : forall md5,
   = [RInt 1; RInt 0; RNil; RInt 1].
 Proof. intros. vm_compute. reflexivity. Qed.
 
-(* kv-persist-arity: the Redis form of PERSIST is refused *)
+(* kv-persist-arity: the Redis form of PERSIST is refused (unless the tree carries proposed_fixes/kv_persist_arity.diff:
+   the statement follows the source-derived switch Kv/KvFlags.v) *)
 Lemma Kv_refuted_persist_arity_l : forall md5,
   kv_run md5 (kv_init 1000) [[K "SET"; K "a"; K "x"]; [K "EXPIRE"; K "a"; K "100"]; [K "PERSIST"; K "a"]]
-  = [RStatus (K "OK"); RInt 1; RError (K "ERR Command Parse Args Count Error")].
+  = [RStatus (K "OK"); RInt 1; if kv_persist_fix then RInt 1 else RError (K "ERR Command Parse Args Count Error")].
 Proof. intros. vm_compute. reflexivity. Qed.
 
 (* kv-del-leaves-value: SETEX k 3 ab ; DEL k ; GET k ; APPEND k cd ; GET k  ->  +OK :1 $-1 :4 $4 abcd *)
